@@ -10,7 +10,7 @@ open SpatialId
 
 /-- numeric literals of `spatial.RotateBetweenVector` -/
 theorem facts_spatial_RotateBetweenVector :
-    Gen.funcFacts.lookup "spatial.RotateBetweenVector" = some ["f:4457293557087583675", "f:4602678819172646912", "i:0", "i:1", "i:2"] := by decide
+    Gen.funcFacts.lookup "spatial.RotateBetweenVector" = some ["f:4457293557087583675", "f:4602678819172646912", "i:2"] := by decide
 
 /-- numeric literals of `spatial.QuatFromAxisAngle` -/
 theorem facts_spatial_QuatFromAxisAngle :
